@@ -3,8 +3,9 @@
    the positional creator of the named type, types/resolver.go:18), as the code is after the fixes 0047197 and
    cb8ce83:
 
-     - the positional creator of Enum, newEnumType3 + NewEnumType (types/enumtype.go:38-105): the only creator that
-       sizes a Go slice from the argument count and then writes it by argument index;
+     - the positional creator of Enum, newEnumType3 + NewEnumType (types/enumtype.go:38-105): it sizes a Go slice
+       from the argument count, rewrites the argument list (the array form followed by more arguments is
+       flattened), and then writes the slice by argument index and truncates it at the flag;
      - the name test of deferred.Resolve (types/deferred.go:113-131): variable ('$' + name, looked up in the scope)
        or function call.
 
